@@ -54,6 +54,9 @@ type scenario struct {
 	// Nested: both sources write below one shared top-level key of the template context
 	// (destinations .cfg.v and .cfg.w), the templates read .config.cfg.*
 	Nested bool `json:"nestedDestinations"`
+	// PresetLabel: sources are created by their owner with the dynamic-cache label already set, to
+	// this value (anything but "True" keeps the object out of the label-filtered informers)
+	PresetLabel string `json:"presetCacheLabel,omitempty"`
 }
 
 // text is the template text of the alphabet entry name for this scenario.
@@ -66,7 +69,7 @@ func (sc scenario) text(name string) string {
 }
 
 func (sc scenario) name() string {
-	return fmt.Sprintf("template cluster=%v templates=%v sources=%s edits=%d restarts=%d faults=%d conflicts=%d optionalFirst=%v longLived=%v nested=%v", sc.Cluster, sc.Templates, sc.Sources, sc.Edits, sc.Restarts, sc.Faults, sc.Conflicts, sc.OptionalFirst, sc.LongLived, sc.Nested)
+	return fmt.Sprintf("template cluster=%v templates=%v sources=%s edits=%d restarts=%d faults=%d conflicts=%d optionalFirst=%v longLived=%v nested=%v presetLabel=%q", sc.Cluster, sc.Templates, sc.Sources, sc.Edits, sc.Restarts, sc.Faults, sc.Conflicts, sc.OptionalFirst, sc.LongLived, sc.Nested, sc.PresetLabel)
 }
 
 func (sc scenario) tKey() kmodel.Key {
@@ -301,6 +304,11 @@ func check(sc scenario) func(before *world.World, ev world.Event, pass *world.Pa
 			if !found {
 				bad("source-change-not-enqueued", "an event on source %s would not enqueue the ObjectTemplate (dynamic cache owners for %s do not include it)", sk, sk.Kind)
 			}
+			// ... and there must be an event in the first place: the informers are filtered by the
+			// dynamic-cache label, so a source the pass has used has to carry it with the exact value
+			if so := after.S.Objs[sk]; so != nil && pass.Err == nil && !world.CacheVisible(so.Content) {
+				bad("source-invisible-to-informers", "the pass used source %s but left it with labels %v: the label-filtered informer does not see it, so a later change of it produces no event and is never rendered", sk, kmodel.Labels(so.Content))
+			}
 		}
 		return out
 	}
@@ -360,6 +368,13 @@ func system(sc scenario) *world.System {
 						tp("user:create-source:"+src.k.Name, func(w *world.World) {
 							u := world.Obj(src.k.Kind, src.k.Namespace, src.k.Name, nil)
 							u.Object["data"] = map[string]any{src.field: "1"}
+							if sc.PresetLabel != "" {
+								v := sc.PresetLabel
+								if v == "<empty>" {
+									v = ""
+								}
+								u.SetLabels(map[string]string{"package-operator.run/cache": v})
+							}
 							w.MustCreate(u)
 						})
 					} else {
@@ -452,6 +467,9 @@ func scenarios(quick bool) []scenario {
 		{Cluster: true, Templates: []string{"okns"}, Sources: "normal", Edits: 2, OptionalFirst: true},
 		{Templates: []string{"ok", "noparse"}, Sources: "normal", Edits: 3, LongLived: true},
 		{Templates: []string{"ok", "needsw"}, Sources: "normal", Edits: 3, Nested: true},
+		{Templates: []string{"ok"}, Sources: "normal", Edits: 3, Restarts: 1, PresetLabel: "true"},
+		{Templates: []string{"ok"}, Sources: "normal", Edits: 3, PresetLabel: "<empty>"},
+		{Cluster: true, Templates: []string{"okns"}, Sources: "normal", Edits: 2, PresetLabel: "False"},
 		{Cluster: true, Templates: []string{"okns"}, Sources: "normal", Edits: 2, Nested: true, OptionalFirst: true},
 	}
 	if !quick {
